@@ -18,6 +18,7 @@ use serde_json::json;
 
 pub fn run_case(ctx: &Ctx, case: u64, ev: &mut Ev) {
     let mut rng = Rng::derive(ctx.seed, "C05", case);
+    rng.big = ctx.tier == crate::Tier::Thorough && rng.chance(0.2);
     if rng.chance(0.75) {
         run_history(case, &mut rng, ev);
     } else {
@@ -77,7 +78,7 @@ pub fn caches_sound(s: &Snap, ev: &mut Ev) -> Result<(usize, usize), (String, St
 
 fn run_history(case: u64, rng: &mut Rng, ev: &mut Ev) {
     let cfg = HistCfg {
-        max_ops: *rng.pick(&[4usize, 8, 14]),
+        max_ops: if rng.big { 24 } else { *rng.pick(&[4usize, 8, 14]) },
         prune_bias: 0.8,
         partial_bias: *rng.pick(&[0.0, 0.4]),
         allow_inexact: false,
